@@ -140,12 +140,15 @@ func NewReceiver(p2pHost host.Host, topicName string, options ...Option) (*Recei
 
 	if p2pHost != nil {
 		r.hostID = p2pHost.ID()
-		watchCtx, cancelWatch := context.WithCancel(context.Background())
-		r.cancelWatch = cancelWatch
-		r.watchDone = make(chan struct{})
+		// Without a pubsub subscription there is nothing to watch.
+		if topicSub != nil {
+			watchCtx, cancelWatch := context.WithCancel(context.Background())
+			r.cancelWatch = cancelWatch
+			r.watchDone = make(chan struct{})
 
-		// Start watcher to read pubsub messages.
-		go r.watch(watchCtx)
+			// Start watcher to read pubsub messages.
+			go r.watch(watchCtx)
+		}
 	}
 
 	return r, nil
